@@ -159,8 +159,12 @@ func (g *G) Msg(o MsgOpts) MsgSpec {
 		default:
 			reason = g.tok(1, 8) + " " + g.tok(0, 8)
 		}
-		m.FLine = g.R.Pick([]string{"SIP/2.0", "SIP/2.0", "sip/2.0", "Sip/2.0"}) + " " +
-			string([]byte{byte('0' + code/100), byte('0' + code/10%10), byte('0' + code%10)}) + " " + reason
+		st := []byte{byte('0' + code/100), byte('0' + code/10%10), byte('0' + code%10)}
+		if o.WildNumbers && g.R.Chance(1, 10) {
+			// a status "number" with a non-digit in it: must be rejected
+			st[g.R.Intn(3)] = ":;A/ z~"[g.R.Intn(7)]
+		}
+		m.FLine = g.R.Pick([]string{"SIP/2.0", "SIP/2.0", "sip/2.0", "Sip/2.0"}) + " " + string(st) + " " + reason
 	}
 	m.FTerm = "\r\n"
 	m.Blank = "\r\n"
